@@ -2,15 +2,16 @@
 
 // prop: C13
 // tier: quick
-// name: Magnitude.translation Magnitude.scaling Magnitude.scaling-beyond-2^31
-// what: (translation) translating every input coordinate of a boolean operation by the same integer vector with magnitudes up to 2^52 translates the solution region (non-zero winding at the translated lattice points that are more than 2 units from every input edge); (scaling) multiplying every coordinate by the same integer factor up to 2^24 (coordinates then stay below 2^30, where every 64-bit product is exact) scales the region; (scaling-beyond-2^31) the same for the factors 2^35, 2^50 and 2^55 (coordinates up to 2^60.4, inside the advertised MaxCoord of 2^61), where the 64-bit products of coordinate differences no longer fit and the library switches to floating-point products; the oracle divides the result by the factor in float64
+// name: Magnitude.translation Magnitude.scaling Magnitude.scaling-beyond-2^31 Magnitude.other-operations Magnitude.other-operations-beyond-2^31
+// what: (translation) translating every input coordinate of a boolean operation by the same integer vector with magnitudes up to 2^52 translates the solution region (non-zero winding at the translated lattice points that are more than 2 units from every input edge); (scaling) multiplying every coordinate by the same integer factor up to 2^24 (coordinates then stay below 2^30, where every 64-bit product is exact) scales the region; (scaling-beyond-2^31) the same for the factors 2^35, 2^50 and 2^55 (coordinates up to 2^60.4, inside the advertised MaxCoord of 2^61), where the 64-bit products of coordinate differences no longer fit and the library switches to floating-point products; the oracle divides the result by the factor in float64; (other-operations) under the same translations and the factors 2^10, 2^24: Area64 is unchanged by translation and multiplied by the square of the factor, IsPositive64 and PointInPolygon give the same answer, SimplifyPath64 keeps the same vertices (epsilon scaled), RectClipPaths64 and InflatePaths64 (Round joins, delta scaled) return regions whose total area is translated / scaled accordingly (relative tolerance 1e-6 plus, for the two clipped regions, 1.5 square units per unit of perimeter at the original scale, since the original result is itself rounded to integers); (other-operations-beyond-2^31) the same with the factors 2^35 and 2^50
 // bound: 1000 (quick) / 40000 (thorough) pseudo-random inputs (1-2 subject and 0-2 clip polygons of 3-6 vertices on the grid {0,4,..,40}^2, seeded by VERIF_SEED) x 4 clip types x NonZero / EvenOdd / Positive, each with 3 translation vectors (one of magnitude about 2^20, 2^40 and 2^52 - 2^20) and the factors 2^10, 2^24, 2^35, 2^50, 2^55
-// sampled: Magnitude.translation Magnitude.scaling Magnitude.scaling-beyond-2^31
+// sampled: Magnitude.translation Magnitude.scaling Magnitude.scaling-beyond-2^31 Magnitude.other-operations Magnitude.other-operations-beyond-2^31
 
 package go_clipper2
 
 import (
 	"fmt"
+	"math"
 	"math/rand"
 	"os"
 	"strconv"
@@ -130,7 +131,72 @@ func TestVerifBoundedMagnitude(t *testing.T) {
 			}
 		}
 	}
-	for _, w := range []string{"translation", "scaling", "scaling-beyond-2^31"} {
+	// other operations on translated / scaled copies of one polygon
+	areaSum := func(pp Paths64) float64 {
+		a := 0.0
+		for _, p := range pp {
+			a += Area64(p)
+		}
+		return a
+	}
+	perim := func(p Path64) float64 {
+		l := 0.0
+		for i := range p {
+			q := p[(i+1)%len(p)]
+			l += math.Hypot(float64(q.X-p[i].X), float64(q.Y-p[i].Y))
+		}
+		return l
+	}
+	close := func(a, b, slack float64) bool { return math.Abs(a-b) <= slack+1e-6*math.Max(math.Abs(a), math.Abs(b)) }
+	for it := 0; it < n; it++ {
+		p := randPoly()
+		pt := Point64{int64(rng.Intn(11)) * 4, int64(rng.Intn(11)) * 4}
+		rect := NewRect64(8, 8, 28, 32)
+		a0, pos0, pip0 := Area64(p), IsPositive64(p), PointInPolygon(pt, p)
+		simp0 := SimplifyPath64(append(Path64{}, p...), 3, true)
+		rc0 := areaSum(RectClipPaths64(rect, Paths64{append(Path64{}, p...)}))
+		inf0 := areaSum(InflatePaths64(Paths64{append(Path64{}, p...)}, 3, Round, Polygon))
+		per := perim(p)
+		check := func(which, name string, f func(Point64) Point64, k float64) {
+			cases[which]++
+			q := v13Copy(Paths64{p}, f)[0]
+			bad := ""
+			if !close(Area64(q), a0*k*k, 0) {
+				bad = fmt.Sprintf("Area64 %v, expected %v", Area64(q), a0*k*k)
+			} else if a0 != 0 && IsPositive64(q) != pos0 {
+				bad = "IsPositive64 differs"
+			} else if PointInPolygon(f(pt), q) != pip0 {
+				bad = fmt.Sprintf("PointInPolygon %v, expected %v", PointInPolygon(f(pt), q), pip0)
+			} else if s2 := SimplifyPath64(append(Path64{}, q...), 3*k, true); fmt.Sprint(s2) != fmt.Sprint(v13Copy(Paths64{simp0}, f)[0]) {
+				bad = fmt.Sprintf("SimplifyPath64 keeps %v, expected %v", s2, v13Copy(Paths64{simp0}, f)[0])
+			} else {
+				lo, hi := f(Point64{8, 8}), f(Point64{28, 32})
+				r2 := NewRect64(lo.X, lo.Y, hi.X, hi.Y)
+				if got := areaSum(RectClipPaths64(r2, Paths64{append(Path64{}, q...)})); !close(got, rc0*k*k, 1.5*k*k*(per+80)) {
+					bad = fmt.Sprintf("RectClipPaths64 area %v, expected %v", got, rc0*k*k)
+				} else if got := areaSum(InflatePaths64(Paths64{append(Path64{}, q...)}, 3*k, Round, Polygon)); !close(got, inf0*k*k, 1.5*k*k*(per+40)+1e-3*math.Abs(inf0)*k*k) {
+					bad = fmt.Sprintf("InflatePaths64 area %v, expected %v", got, inf0*k*k)
+				}
+			}
+			if bad != "" {
+				report(which, 0, 0, Paths64{p}, nil, name+": "+bad)
+			}
+		}
+		sgn := func() int64 { return int64(rng.Intn(2)*2 - 1) }
+		v1 := Point64{sgn() * (1<<40 + int64(rng.Intn(1000))), sgn() * int64(rng.Intn(1<<20))}
+		v2 := Point64{sgn() * (1<<52 - 1<<20), sgn() * (1<<52 - 1<<20)}
+		check("other-operations", fmt.Sprint("translated by ", v1), func(q Point64) Point64 { return Point64{q.X + v1.X, q.Y + v1.Y} }, 1)
+		check("other-operations", fmt.Sprint("translated by ", v2), func(q Point64) Point64 { return Point64{q.X + v2.X, q.Y + v2.Y} }, 1)
+		for _, e := range []uint{10, 24} {
+			k := int64(1) << e
+			check("other-operations", fmt.Sprint("scaled by 2^", e), func(q Point64) Point64 { return Point64{q.X * k, q.Y * k} }, float64(k))
+		}
+		for _, e := range []uint{35, 50} {
+			k := int64(1) << e
+			check("other-operations-beyond-2^31", fmt.Sprint("scaled by 2^", e), func(q Point64) Point64 { return Point64{q.X * k, q.Y * k} }, float64(k))
+		}
+	}
+	for _, w := range []string{"translation", "scaling", "scaling-beyond-2^31", "other-operations", "other-operations-beyond-2^31"} {
 		fmt.Printf("VERIF-BOUNDED Magnitude.%s cases=%d failures=%d\n", w, cases[w], fails[w])
 	}
 }
